@@ -1162,6 +1162,24 @@ example : (bothAfter (mkFiltV (fun x => x != 0) Mahotas.C08.Example4.vRF Mahotas
     retrieveBoth (mkFiltV (fun x => x != 0) Mahotas.C08.Example4.vRF Mahotas.C08.Example4.memX Mahotas.C08.Example4.vX .nearest true)
       Mahotas.C08.Example4.memR Mahotas.C08.Example4.vRF 8 0 = some 1 := by decide +kernel
 
+/-- **T5, whole API (purity: arguments unchanged unless asked).** The translator scans ALL Python sources for calls of the 15
+native kernels that overwrite one of their array arguments (`_morph.subm`, `_labeled.label/relabel/remove_regions/slic`,
+`_distance.dt`, `_interpolate.spline_filter1d`, `_surf.integral`, `_thin.thin`, the six wavelet kernels) and records where
+the buffer handed over comes from (`Generated.inplaceSites`, regenerated on every run; a new call site appears by itself).
+At EVERY site found in the current sources (16 sites in 15 public functions at the time of writing; the
+statement does not pin the number, so that a new wrapper that copies does not alarm) the kernel receives —
+when the caller did not ask for in-place operation — a fresh array: allocated or copied in the wrapper (`distance`,
+`gvoronoi`, `slic`, `thin` ×2), the result of `_get_output` without `out` (`label`, `subm`, `spline_filter`,
+`spline_filter1d`), or the copy made by a guard of `copyGuards` (`haar`, `ihaar`, `daubechies`, `idaubechies`, `relabel`,
+`remove_regions`, `surf.integral`). So no native kernel can overwrite a caller's argument unless `out`, `inline`,
+`inplace` or `in_place` was passed. (That the listed numpy calls copy, and that kernels NOT in the list leave their inputs
+alone, is validated by the sweep's before/after digests of every argument and its root buffer.) -/
+theorem C08_inplace_kernels_receive_fresh_buffers :
+    10 ≤ Generated.inplaceSites.length ∧
+    (Generated.inplaceSites.all fun s => siteTarget Generated.copyGuards s == .copy) = true ∧
+    siteTarget Generated.copyGuards ("x.f", "_morph.subm", "param", "a") = .user := by
+  refine ⟨by decide, by decide +kernel, by decide +kernel⟩
+
 /-! ## Round 4 — the in-place wavelet kernels on strided rows (`haar`, `ihaar`, `daubechies`, `idaubechies`, `inline=True`
 included): `Model/C08ViewsB.lean`
 
